@@ -420,14 +420,10 @@ Proof.
   { repeat split; auto; discriminate. }
   specialize (Hok1 eq_refl).
   assert (Hm: (rmeasure r1 < fuel)%nat) by (unfold rmeasure; destruct (r_frame r1); lia).
-  destruct (h_fin h).
-  - pose proof (read_full_rd_gen fuel (Z.to_N (h_len h)) 0 r1 [] Hw1 Hm) as T.
-    destruct (read_full_rd fuel (Z.to_N (h_len h)) 0 r1 []) as [[p e2] r2]. destruct T as (Hn2 & Hw2 & Hle2).
-    destruct e2 as [e2|]; repeat split; auto; try discriminate. intros _. unfold rlen in *. lia.
-  - pose proof (read_to_eof_gen fuel bufs bufs r1 [] Hw1 Hm) as T.
-    destruct (read_to_eof fuel bufs bufs r1 []) as [[p e2] r2]. destruct T as (Hn2 & Hw2 & Hle2).
-    destruct e2 as [[| |]| | | | | | | |]; repeat split; auto; try discriminate;
-      try (intros _; unfold rlen in *; lia).
+  pose proof (read_to_eof_gen fuel bufs bufs r1 [] Hw1 Hm) as T.
+  destruct (read_to_eof fuel bufs bufs r1 []) as [[p e2] r2]. destruct T as (Hn2 & Hw2 & Hle2).
+  destruct e2 as [[| |]| | | | | | | |]; repeat split; auto; try discriminate;
+    try (intros _; unfold rlen in *; lia).
 Qed.
 
 Lemma read_messages_gen bufs state : forall fuel s acc, wf_src s -> (length (flat s) + 1 <= fuel)%nat ->
